@@ -499,6 +499,8 @@ pub fn inject_site<'a>(module: &mut Module<'a>, func: u32, api: Api, site: &Site
     match api {
         Api::IterCursor | Api::IterAt | Api::IterInjectAt => {
             let n_instr = module.functions.unwrap_local(FunctionID(func)).body.instructions.len();
+            let mut left_to_modifier = false;
+            {
             let mut it = ModuleIterator::new(module, &vec![]);
             let use_cursor = api == Api::IterCursor || is_func_mode;
             if use_cursor {
@@ -518,8 +520,13 @@ pub fn inject_site<'a>(module: &mut Module<'a>, func: u32, api: Api, site: &Site
                     it.append_to_tag(t.clone());
                 }
                 if is_func_mode {
-                    // a careful client resets the mode it set through the documented call
-                    it.finish_instr();
+                    // a careful client resets the mode it set through the documented call; one in four
+                    // leaves it to the next `get_fn_modifier` of that function (which resets it as well)
+                    if site.magic % 4 != 0 {
+                        it.finish_instr();
+                    } else {
+                        left_to_modifier = true;
+                    }
                 }
             } else if api == Api::IterAt || is_empty_mode {
                 set_mode_at(&mut it, site.mode, loc);
@@ -558,6 +565,10 @@ pub fn inject_site<'a>(module: &mut Module<'a>, func: u32, api: Api, site: &Site
                 if let Some(t) = &site.tag {
                     it.append_tag_at(t.clone(), loc);
                 }
+            }
+            }
+            if left_to_modifier {
+                let _ = module.functions.get_fn_modifier(FunctionID(func));
             }
         }
         Api::Modifier | Api::ModifierInjectAt => {
